@@ -1204,3 +1204,159 @@ func c06r8(rc *core.RC) {
 		rc.Unknown("decoder/skippers", token.NoPos, "found %d bracket pairs in the four structure skippers", n)
 	}
 }
+
+// ---- C06.R9 an index into a power table is bounded by that table's own length ----
+
+// parseInt and parseUint weight digits with pow10i64/pow10u64 and reject literals with more digits
+// than the table has entries, using a package variable defined as len(table). The guard in a
+// function has to name the length of the table that function indexes: the two tables have
+// different lengths, and the other one's length lets a 20-digit literal index past the end.
+func c06r9(rc *core.RC) {
+	p := rc.P
+	pk := p.Pkg("decoder")
+	// package variables defined as len(<table>)
+	lenOf := map[types.Object]types.Object{}
+	for _, f := range pk.Syntax {
+		for _, d := range f.Decls {
+			gd, ok := d.(*ast.GenDecl)
+			if !ok {
+				continue
+			}
+			for _, sp := range gd.Specs {
+				vs, ok := sp.(*ast.ValueSpec)
+				if !ok {
+					continue
+				}
+				for i, nm := range vs.Names {
+					if i >= len(vs.Values) {
+						continue
+					}
+					if c, ok := core.Unparen(vs.Values[i]).(*ast.CallExpr); ok && core.IsBuiltin(pk.TypesInfo, c, "len") && len(c.Args) == 1 {
+						if t := core.ObjOf(pk.TypesInfo, c.Args[0]); t != nil {
+							lenOf[pk.TypesInfo.Defs[nm]] = t
+						}
+					}
+				}
+			}
+		}
+	}
+	n := 0
+	for _, fd := range p.Funcs("decoder") {
+		if fd.Body == nil {
+			continue
+		}
+		info := p.Info(fd)
+		indexed := map[types.Object]token.Pos{}
+		guarded := map[types.Object]bool{}
+		ast.Inspect(fd.Body, func(m ast.Node) bool {
+			switch x := m.(type) {
+			case *ast.IndexExpr:
+				t := core.ObjOf(info, x.X)
+				if t == nil || t.Pkg() == nil || t.Parent() != t.Pkg().Scope() {
+					return true
+				}
+				if _, isConst := core.ConstInt(info, x.Index); isConst {
+					return true
+				}
+				hasLenVar := false
+				for _, tt := range lenOf {
+					if tt == t {
+						hasLenVar = true
+					}
+				}
+				if hasLenVar {
+					indexed[t] = x.Pos()
+				}
+			case *ast.IfStmt:
+				exits := false
+				for _, st := range x.Body.List {
+					if r, ok := st.(*ast.ReturnStmt); ok && core.ReturnIsError(info, r) {
+						exits = true
+					}
+				}
+				if !exits {
+					return true
+				}
+				ast.Inspect(x.Cond, func(k ast.Node) bool {
+					if id, ok := k.(*ast.Ident); ok {
+						if t, ok := lenOf[info.Uses[id]]; ok {
+							guarded[t] = true
+						}
+					}
+					if c, ok := k.(*ast.CallExpr); ok && core.IsBuiltin(info, c, "len") && len(c.Args) == 1 {
+						if t := core.ObjOf(info, c.Args[0]); t != nil {
+							guarded[t] = true
+						}
+					}
+					return true
+				})
+			}
+			return true
+		})
+		for t, pos := range indexed {
+			n++
+			fn := p.FuncName(fd)
+			rc.Touch(fn)
+			key := fn + "/index " + t.Name() + " bounded-by-own-length"
+			if guarded[t] {
+				rc.OK(key, pos, "an error exit compares against the length of %s", t.Name())
+			} else {
+				var others []string
+				for o := range guarded {
+					others = append(others, o.Name())
+				}
+				sort.Strings(others)
+				rc.Bad(key, pos, "%s is indexed with a run-time value, but the only length tests with an error exit in %s are against %v: a literal long enough for the other table indexes past the end of this one and the call panics", t.Name(), fd.Name.Name, others)
+			}
+		}
+	}
+	if n < 2 {
+		rc.Unknown("decoder/table-index-sites", token.NoPos, "found %d indexed length-guarded tables (parseInt and parseUint expected)", n)
+	}
+}
+
+// ---- C06.R10 every decoder context carries options ----
+
+// Decoders read ctx.Option (flags, context, path). A RuntimeContext built by a composite literal
+// instead of taken from the pool must set Option, or the first decoder that looks at it panics.
+func c06r10(rc *core.RC) {
+	p := rc.P
+	n := 0
+	for _, short := range []string{"decoder", "json"} {
+		for _, fd := range p.Funcs(short) {
+			if fd.Body == nil {
+				continue
+			}
+			info := p.Info(fd)
+			fn := p.FuncName(fd)
+			k := 0
+			ast.Inspect(fd.Body, func(m ast.Node) bool {
+				cl, ok := m.(*ast.CompositeLit)
+				if !ok {
+					return true
+				}
+				tv := info.Types[cl]
+				nt, ok := tv.Type.(*types.Named)
+				if !ok || nt.Obj().Name() != "RuntimeContext" || nt.Obj().Pkg() == nil || nt.Obj().Pkg().Path() != core.PkgPaths["decoder"] {
+					return true
+				}
+				n++
+				k++
+				rc.Touch(fn)
+				has := false
+				for _, el := range cl.Elts {
+					if kv, ok := el.(*ast.KeyValueExpr); ok {
+						if id, ok := kv.Key.(*ast.Ident); ok && id.Name == "Option" && !core.IsNilIdent(info, kv.Value) {
+							has = true
+						}
+					}
+				}
+				rc.Check(has, fmt.Sprintf("%s/RuntimeContext-literal#%d has-Option", fn, k), cl.Pos(), "a decoder RuntimeContext is built with its Option set (decoders dereference ctx.Option)")
+				return true
+			})
+		}
+	}
+	if n < 2 {
+		rc.Unknown("decoder/RuntimeContext-literals", token.NoPos, "found %d RuntimeContext literals (the pool constructor and the ,string stream path expected)", n)
+	}
+}
